@@ -16,6 +16,18 @@ def parseMember (t : String) : Option Member :=
   | 'e' :: r => if r.isEmpty then none else some (.echo (String.ofList r))
   | _ => none
 
+def parseFlow (t : String) : Option Spec.Flow :=
+  match t.toList with
+  | ['c'] => some .cat
+  | ['d'] => some .drain
+  | 'w' :: r => (String.ofList r).toNat?.map .spew
+  | 's' :: r => (String.ofList r).toNat?.map .st
+  | 't' :: r =>
+    match (String.ofList r).splitOn "." with
+    | [k, st] => do pure (.take (← k.toNat?) (← st.toNat?))
+    | _ => none
+  | _ => none
+
 def parseWOp (t : String) : Option WOp :=
   if t = "u" then some .unknownPid
   else if t = "%" then some .unknownJobId
@@ -27,6 +39,7 @@ def parseStmt (t : String) : Option Stmt :=
   | ["pf0"] => some (.pf false)
   | "p" :: ms => (ms.mapM parseMember).map (.pipe false)
   | "np" :: ms => (ms.mapM parseMember).map (.pipe true)
+  | "fp" :: fs => if fs.length < 2 then none else (fs.mapM parseFlow).map .flow
   | "bg" :: ms => if ms.isEmpty then none else (ms.mapM parseMember).map .bg
   | "wj" :: ks => if ks.isEmpty then none else (ks.mapM parseWOp).map .wj
   | ["w"] => some .w
